@@ -79,15 +79,22 @@ def match_one(adapter, seq):
     return MMatch(adapter, [Part(adapter, m, side_of(adapter, m), seq)])
 
 
+TRACE = None  # set to a list to record, per round, the candidates [(name, score, errors), ...]
+
+
 def best_of(adapters, seq):
     """Highest score; ties: fewer errors; then the adapter given first."""
     best = None
+    cands = []
     for a in adapters:
         m = match_one(a, seq)
         if m is None:
             continue
+        cands.append((a.name, m.score, m.errors))
         if best is None or m.score > best.score or (m.score == best.score and m.errors < best.errors):
             best = m
+    if TRACE is not None:
+        TRACE.append(cands)
     return best
 
 
@@ -173,7 +180,7 @@ def paired_revcomp_stage(ad1, ad2, r1, r2, times, action):
     sx, sxm, sy, sym = both(r2, r1)
     unsw = sum(m.score for m in xm) + sum(m.score for m in ym)
     sw = sum(m.score for m in sxm) + sum(m.score for m in sym)
-    if sw > unsw:
+    if (sxm or sym) and sw > unsw:
         return sx, sxm, sy, sym, True
     return x, xm, y, ym, False
 
